@@ -178,6 +178,8 @@ pub struct Printed {
     pub line_ends: Vec<usize>,
     /// byte offsets right after a single space between two words where a block comment may be inserted
     pub gaps: Vec<usize>,
+    /// byte offsets after a blank inside a numeric quantity value (a block comment may go there, a line break may not)
+    pub value_gaps: Vec<usize>,
     /// byte offsets at the start of a block's first line (after the separator)
     pub block_starts: Vec<usize>,
     /// the source has a YAML front matter; Cooklang starts at this offset
@@ -185,23 +187,32 @@ pub struct Printed {
     pub uses_old_metadata: bool,
 }
 
-fn val_src(v: &Val, ch: &mut Chooser, out: &mut String) {
+/// `gaps` receives the offsets after every blank written inside a numeric value (places where a block comment may go)
+fn val_src(v: &Val, ch: &mut Chooser, out: &mut String, gaps: &mut Vec<usize>) {
+    fn put(s: &str, out: &mut String, gaps: &mut Vec<usize>) {
+        for c in s.chars() {
+            out.push(c);
+            if c == ' ' {
+                gaps.push(out.len());
+            }
+        }
+    }
     match v {
         Val::Int(n) => out.push_str(&n.to_string()),
         Val::Dec(s) => out.push_str(s),
         Val::Frac(a, b) => {
             let pad = ch.pick(2) == 1;
-            out.push_str(&if pad { format!("{a} / {b}") } else { format!("{a}/{b}") });
+            put(&if pad { format!("{a} / {b}") } else { format!("{a}/{b}") }, out, gaps);
         }
         Val::Mixed(w, a, b) => {
             let pad = ch.pick(2) == 1;
-            out.push_str(&if pad { format!("{w} {a} / {b}") } else { format!("{w} {a}/{b}") });
+            put(&if pad { format!("{w} {a} / {b}") } else { format!("{w} {a}/{b}") }, out, gaps);
         }
         Val::Range(a, b) => {
-            val_src(a, ch, out);
+            val_src(a, ch, out, gaps);
             let pad = ch.pick(2) == 1;
-            out.push_str(if pad { " - " } else { "-" });
-            val_src(b, ch, out);
+            put(if pad { " - " } else { "-" }, out, gaps);
+            val_src(b, ch, out, gaps);
         }
         Val::Text(t) => out.push_str(t),
     }
@@ -211,7 +222,7 @@ fn is_single_word(name: &str) -> bool {
     !name.is_empty() && name.chars().all(|c| c.is_alphanumeric())
 }
 
-fn comp_src(c: &Comp, cfg: Config, ch: &mut Chooser, out: &mut String, gaps: &mut Vec<usize>) {
+fn comp_src(c: &Comp, cfg: Config, ch: &mut Chooser, out: &mut String, gaps: &mut Vec<usize>, vgaps: &mut Vec<usize>) {
     out.push(match c.kind {
         Kind::Igr => '@',
         Kind::Cw => '#',
@@ -280,7 +291,7 @@ fn comp_src(c: &Comp, cfg: Config, ch: &mut Chooser, out: &mut String, gaps: &mu
                     out.push(' ');
                 }
             }
-            val_src(&q.val, ch, out);
+            val_src(&q.val, ch, out, vgaps);
             if let Some(u) = q.unit {
                 // `%` (default), ` % `, or a space instead of `%` (advanced units: numeric value, extended parser only)
                 let numeric = !matches!(q.val, Val::Text(_));
@@ -450,7 +461,7 @@ pub fn print(r: &Recipe, cfg: Config, ch: &mut Chooser) -> Printed {
                         }
                         Item::Comp(c) => {
                             let start = out.len();
-                            comp_src(c, cfg, ch, &mut out, &mut p.gaps);
+                            comp_src(c, cfg, ch, &mut out, &mut p.gaps, &mut p.value_gaps);
                             p.items.push((bi, ii, start..out.len()));
                         }
                         Item::Raw(s) => {
@@ -490,7 +501,7 @@ pub fn print(r: &Recipe, cfg: Config, ch: &mut Chooser) -> Printed {
         for (_, _, r) in p.items.iter_mut() {
             *r = remap(r.start)..remap(r.end);
         }
-        for x in p.line_ends.iter_mut().chain(p.gaps.iter_mut()).chain(p.block_starts.iter_mut()) {
+        for x in p.line_ends.iter_mut().chain(p.gaps.iter_mut()).chain(p.value_gaps.iter_mut()).chain(p.block_starts.iter_mut()) {
             *x = remap(*x);
         }
         p.body_start = remap(p.body_start);
